@@ -10,7 +10,8 @@ INFO = {
                    "the specified 4 accepting rows with everything else refused; Finish is reachable only from "
                    "(RoundTwo, Done) and carries the state's output share; next_message refuses a non-zero sketch "
                    "verifier and unexpected lengths; verifier_shares_to_message refuses fewer/more than two shares and "
-                   "mixed field kinds; the message decoder follows the state's round. The sketch algebra (that only "
+                   "mixed field kinds and merges them with a merge_vector that refuses unequal lengths before writing (shared with C13); "
+                   "the message decoder follows the state's round. The sketch algebra (that only "
                    "one-hot 0/1 vectors pass) is NOT decided.",
     "trusted_base": ["rustc type checker and MIR construction (nightly)", "expression reconstruction (sa/expr.py)",
                      "expected decision table transcribed from draft-irtf-cfrg-vdaf-18 section 8.2"],
